@@ -86,48 +86,57 @@ TWIN = packs("twin")
 def plan(prop, tier):
     q = tier == "quick"
     n = int(prop[1:])
+    return _plan(prop, q, n)
+
+
+def R(quick, thorough_mult=8):
+    """run counts per universe: (quick, thorough)"""
+    return quick, quick * thorough_mult
+
+
+def _plan(prop, q, n):
     if prop == "C01":
-        return [storm(NORMAL, 6000 if q else 60000, n, 0, 24 if q else 40),
-                storm(NORMAL, 2500 if q else 25000, n, 1, 24 if q else 40)]
+        return [storm(NORMAL, 30000 if q else 300000, n, 0, 24 if q else 40),
+                storm(NORMAL, 12500 if q else 125000, n, 1, 24 if q else 40)]
     if prop == "C02":
-        return [storm(ALL, 5000 if q else 50000, n, 1, 24 if q else 40)]
+        return [storm(ALL, 25000 if q else 250000, n, 1, 24 if q else 40)]
     if prop == "C03":
-        return [storm(instrumented(ALL), 6000 if q else 60000, n, 1, 24 if q else 40)]
+        return [storm(instrumented(ALL), 30000 if q else 300000, n, 1, 24 if q else 40)]
     if prop == "C04":
-        return [storm(instrumented(NORMAL), 4000 if q else 40000, n, 1, 24 if q else 40),
-                storm(instrumented(NORMAL), 3000 if q else 30000, n, 0, 24 if q else 40)]
+        return [storm(instrumented(NORMAL), 20000 if q else 200000, n, 1, 24 if q else 40),
+                storm(instrumented(NORMAL), 15000 if q else 150000, n, 0, 24 if q else 40)]
     if prop == "C05":
-        return [sweep(instrumented(NORMAL), 600 if q else 8000, n, D.MASK_C05)]
+        return [sweep(instrumented(NORMAL), 3000 if q else 30000, n, D.MASK_C05)]
     if prop == "C06":
-        return [sweep(instrumented(NORMAL), 120 if q else 1500, n, D.MASK_ALL, pairs=1),
-                storm(instrumented(NORMAL), 2500 if q else 25000, n, 1, 24 if q else 40)]
+        return [sweep(instrumented(NORMAL), 600 if q else 6000, n, D.MASK_ALL, pairs=1),
+                storm(instrumented(NORMAL), 12500 if q else 125000, n, 1, 24 if q else 40)]
     if prop == "C07":
-        return [storm(ALLOCU + CORE, 6000 if q else 60000, n, 0, 24 if q else 40),
-                storm(ALLOCU, 3000 if q else 30000, n, 1, 24 if q else 40)]
+        return [storm(ALLOCU + CORE, 30000 if q else 300000, n, 0, 24 if q else 40),
+                storm(ALLOCU, 15000 if q else 150000, n, 1, 24 if q else 40)]
     if prop == "C09":
-        return [storm(NORMAL, 7000 if q else 70000, n, 0, 24 if q else 40)]
+        return [storm(NORMAL, 35000 if q else 350000, n, 0, 24 if q else 40)]
     if prop == "C10":
-        return [storm(NORMAL, 7000 if q else 70000, n, 0, 24 if q else 40)]
+        return [storm(NORMAL, 35000 if q else 350000, n, 0, 24 if q else 40)]
     if prop == "C11":
-        return [storm(CORE + TWIN, 12000 if q else 120000, n, 0, 24 if q else 40),
-                storm(CORE, 5000 if q else 50000, n, 1, 24 if q else 40)]
+        return [storm(CORE + TWIN, 60000 if q else 600000, n, 0, 24 if q else 40),
+                storm(CORE, 25000 if q else 250000, n, 1, 24 if q else 40)]
     if prop == "C12":
-        st = [storm(SIZE, 12000 if q else 120000, n, 0, 20 if q else 32),
-              storm(SIZE, 6000 if q else 60000, n, 1, 20 if q else 32)]
+        st = [storm(SIZE, 60000 if q else 600000, n, 0, 20 if q else 32),
+              storm(SIZE, 30000 if q else 300000, n, 1, 20 if q else 32)]
         return st
     if prop == "C13":
-        return [storm(TWIN, 20000 if q else 200000, n, 0, 24 if q else 40)]
+        return [storm(TWIN, 100000 if q else 1000000, n, 0, 24 if q else 40)]
     if prop == "C14":
-        return [storm(NORMAL, 5000 if q else 50000, n, 0, 24 if q else 40),
-                stage("long", packs("core"), 3 if q else 6, n, 0, 24, "asan20",
+        return [storm(NORMAL, 25000 if q else 250000, n, 0, 24 if q else 40),
+                stage("long", packs("core"), 4 if q else 12, n, 0, 24, "asan20",
                       ["--long-n", "100000" if q else "2000000"])]
     if prop == "C15":
-        return [storm(NORMAL, 4000 if q else 40000, n, 1, 24 if q else 40),
-                storm(NORMAL, 3000 if q else 30000, n, 0, 24 if q else 40)]
+        return [storm(NORMAL, 20000 if q else 200000, n, 1, 24 if q else 40),
+                storm(NORMAL, 15000 if q else 150000, n, 0, 24 if q else 40)]
     if prop == "C16":
-        return [storm(CORE + TWIN, 12000 if q else 120000, n, 0, 24 if q else 40)]
+        return [storm(CORE + TWIN, 60000 if q else 600000, n, 0, 24 if q else 40)]
     if prop == "C18":
-        return [sweep(instrumented(NORMAL), 300 if q else 4000, n, D.MASK_ALL)]
+        return [sweep(instrumented(NORMAL), 1500 if q else 15000, n, D.MASK_ALL)]
     return []
 
 
@@ -261,10 +270,9 @@ def run_check(prop, tier, seed):
             else:
                 unknown[sig] = (b0, v0, c + 1)
     # engine-suppressed known findings are reported from the counters
-    for i, k in enumerate([k for k in known if k.get("status") == "known" and k.get("engine_suppress")
-                           and k.get("property") == prop]):
-        hits = sum(int(v) for kk, v in agg["stats"].items() if kk.startswith("known_"))
-        if hits:
+    for i, (k, o) in enumerate(D.known_items_for(prop, known)):
+        hits = int(agg["stats"].get("known_%d" % i, 0))
+        if hits and k.get("property") == prop:
             line = "KNOWN-FINDING: property=%s %s" % (prop, k.get("what", k["oracle"]))
             if line not in known_lines:
                 known_lines.append(line)
